@@ -228,6 +228,92 @@ def send (st : State) (fl : Name) (msg : Msg) : Except Err (List Ev × Option Mi
     | [] => .error .noMethod
     | cs => .ok (sendTrace cs, sendResult cs)
 
+/-! ### sending with an argument; whopper bodies that continue zero, one or several times;
+    the default handler -/
+
+/-- what a whopper body does: one entry per `(continue-whopper …)` call it makes, in the order of
+    the calls; the entry is added to the argument the body received to give the argument it
+    passes on. `[0]` is the body that continues once with its own argument, `[]` never continues,
+    `[1, 2]` continues twice. -/
+abbrev WhopBody := Mid → List Int
+
+/-- events that also record the argument the daemon was called with -/
+inductive EvA where
+  | whopIn (id : Mid) (arg : Int)
+  | whopOut (id : Mid) (arg : Int)
+  | before (id : Mid) (arg : Int)
+  | primary (id : Mid) (arg : Int)
+  | after (id : Mid) (arg : Int)
+  deriving DecidableEq, Repr
+
+def EvA.erase : EvA → Ev
+  | .whopIn id _ => .whopIn id
+  | .whopOut id _ => .whopOut id
+  | .before id _ => .before id
+  | .primary id _ => .primary id
+  | .after id _ => .after id
+
+/-- the value of a send -/
+inductive Res where
+  | none                              -- no primary ran (nil)
+  | primary (id : Mid) (arg : Int)    -- the value of primary `id` called with `arg`
+  | whopper (id : Mid)                -- the own value of a whopper body that never continued
+  deriving DecidableEq, Repr
+
+/-- `Method.InnerCall` with the arguments it was given -/
+def innerCallA (cs : List Combo) (a : Int) : List EvA :=
+  (cs.filterMap (·.before)).map (EvA.before · a)
+    ++ ((cs.filterMap (·.primary)).head?.toList.map (EvA.primary · a))
+    ++ ((cs.filterMap (·.after)).reverse.map (EvA.after · a))
+
+def innerResA (cs : List Combo) (a : Int) : Res :=
+  match (cs.filterMap (·.primary)).head? with
+  | some p => .primary p a
+  | none => .none
+
+/-- `Method.Call` / `WhopLoc.Continue`: the first whopper at or after the current position runs;
+    every `(continue-whopper x)` of its body starts again behind that whopper (the location is
+    not advanced by a continue, so a second continue runs the same rest a second time) -/
+def callFromA (wb : WhopBody) (all : List Combo) : List Combo → Int → List EvA
+  | [], a => innerCallA all a
+  | c :: rest, a =>
+    match c.whopper with
+    | some w =>
+      EvA.whopIn w a :: ((wb w).flatMap (fun d => callFromA wb all rest (a + d)) ++ [EvA.whopOut w a])
+    | none => callFromA wb all rest a
+
+/-- the value: a whopper body returns what its last `(continue-whopper …)` returned -/
+def resFromA (wb : WhopBody) (all : List Combo) : List Combo → Int → Res
+  | [], a => innerResA all a
+  | c :: rest, a =>
+    match c.whopper with
+    | some w =>
+      match (wb w).getLast? with
+      | some d => resFromA wb all rest (a + d)
+      | none => .whopper w
+    | none => resFromA wb all rest a
+
+/-- the slot that holds a flavor's `:default-handler` (inherited like every slot: the first
+    flavor in precedence order that declares one supplies it) -/
+def handlerSlot : Slot := 20
+
+inductive Outcome where
+  | ran (trace : List EvA) (value : Res)
+  | handled (handler : Int)           -- no method: the default handler got the message
+  | noMethod                          -- no method and no default handler: invalid-method-error
+  | undefinedFlavor
+  deriving DecidableEq, Repr
+
+/-- `Instance.Receive`: `(send inst msg a)` -/
+def sendA (wb : WhopBody) (st : State) (fl : Name) (msg : Msg) (a : Int) : Outcome :=
+  if st.defd fl = false then .undefinedFlavor
+  else match st.tab fl msg with
+    | [] =>
+      match st.slots fl handlerSlot with
+      | some (some hd) => .handled hd
+      | _ => .noMethod
+    | cs => .ran (callFromA wb cs cs a) (resFromA wb cs cs a)
+
 /-! ## specification layer (functions of the forms; histories newest first) -/
 
 /-- keep the first occurrence of every name -/
@@ -310,6 +396,37 @@ def specTraceR (vm : List Msg) (h : List Form) (fl : Name) (m : Msg) : List Ev :
     ++ ((daemonsR vm h fl m .after).reverse.map Ev.after)
     ++ ((daemonsR vm h fl m .whopper).reverse.map Ev.whopOut)
 
+/-- whoppers wrapped around an inner call: outermost first; every continue of a body runs the
+    remaining whoppers and the inner call once more, with the argument the body passes on -/
+def wrapA (wb : WhopBody) (inner : Int → List EvA) : List Mid → Int → List EvA
+  | [], a => inner a
+  | w :: ws, a =>
+    EvA.whopIn w a :: ((wb w).flatMap (fun d => wrapA wb inner ws (a + d)) ++ [EvA.whopOut w a])
+
+def wrapRes (wb : WhopBody) (inner : Int → Res) : List Mid → Int → Res
+  | [], a => inner a
+  | w :: ws, a =>
+    match (wb w).getLast? with
+    | some d => wrapRes wb inner ws (a + d)
+    | none => .whopper w
+
+/-- the daemons inside the whoppers, in the order the property demands, called with `a` -/
+def specInnerAR (vm : List Msg) (h : List Form) (fl : Name) (m : Msg) (a : Int) : List EvA :=
+  (daemonsR vm h fl m .before).map (EvA.before · a)
+    ++ ((daemonsR vm h fl m .primary).head?.toList.map (EvA.primary · a))
+    ++ ((daemonsR vm h fl m .after).reverse.map (EvA.after · a))
+
+def specInnerResR (vm : List Msg) (h : List Form) (fl : Name) (m : Msg) (a : Int) : Res :=
+  match (daemonsR vm h fl m .primary).head? with
+  | some p => .primary p a
+  | none => .none
+
+def specTraceAR (wb : WhopBody) (vm : List Msg) (h : List Form) (fl : Name) (m : Msg) (a : Int) : List EvA :=
+  wrapA wb (specInnerAR vm h fl m) (daemonsR vm h fl m .whopper) a
+
+def specResAR (wb : WhopBody) (vm : List Msg) (h : List Form) (fl : Name) (m : Msg) (a : Int) : Res :=
+  wrapRes wb (specInnerResR vm h fl m) (daemonsR vm h fl m .whopper) a
+
 /-- the (flavor, kind, message) keys of the method forms -/
 def methodKeysR : List Form → List (Name × Kind × Msg)
   | [] => []
@@ -333,5 +450,10 @@ def ownSlot (h : List Form) (g : Name) (s : Slot) : Option (Option Int) := ownSl
 def daemons (vm : List Msg) (h : List Form) (fl : Name) (m : Msg) (k : Kind) : List Mid :=
   daemonsR vm h.reverse fl m k
 def specTrace (vm : List Msg) (h : List Form) (fl : Name) (m : Msg) : List Ev := specTraceR vm h.reverse fl m
+
+def specTraceA (wb : WhopBody) (vm : List Msg) (h : List Form) (fl : Name) (m : Msg) (a : Int) : List EvA :=
+  specTraceAR wb vm h.reverse fl m a
+def specResA (wb : WhopBody) (vm : List Msg) (h : List Form) (fl : Name) (m : Msg) (a : Int) : Res :=
+  specResAR wb vm h.reverse fl m a
 
 end SlipVerif.Flavors
